@@ -333,7 +333,8 @@ def loops_in(toks, m, lo, hi):
 # ------------------------------------------------------------------------------------------------
 LOGMACROS = {"trace", "debug", "info", "warn", "error", "eprintln", "println", "debug_assert"}
 
-def r2_trace(toks, stats):
+def r2_trace(toks, stats, extra=()):
+    """extra: more statement macros to drop (R2p: eprintln!/println! in CLI code, whose output no property here speaks about)"""
     i = 0
     out = []
     m = match_table(toks)
@@ -341,7 +342,7 @@ def r2_trace(toks, stats):
     while i < n:
         t = toks[i]
         # optional path prefix ::tracing::trace!
-        if t.k == "id" and t.s in LOGMACROS and i + 2 < n and toks[i + 1].s == "!" and toks[i + 2].k == "o":
+        if t.k == "id" and (t.s in LOGMACROS or t.s in extra) and i + 2 < n and toks[i + 1].s == "!" and toks[i + 2].k == "o":
             close = m[i + 2]
             # strip path prefix already emitted
             while len(out) >= 2 and out[-1].s == "::" and (out[-2].k == "id"):
@@ -443,7 +444,9 @@ def r4_macro(toks, stats):
 # ------------------------------------------------------------------------------------------------
 # R1: await
 # ------------------------------------------------------------------------------------------------
-def r1_await(toks, stats):
+def r1_await(toks, stats, mark=False):
+    """mark=True (R1m): `E.await` -> `E.vx_awaited()` instead of dropping the await, for units whose contracts distinguish a ticket that is
+    awaited from one that is dropped (vx_awaited is an environment method of the unit's prelude)"""
     out = []
     i = 0
     n = len(toks)
@@ -452,6 +455,10 @@ def r1_await(toks, stats):
     while i < n:
         t = toks[i]
         if t.s == "." and i + 1 < n and toks[i + 1].s == "await":
+            if mark:
+                stats["R1m.await_marked"] = stats.get("R1m.await_marked", 0) + 1
+                out.append(t); out += T("vx_awaited()")
+                i += 2; continue
             stats["R1.await"] = stats.get("R1.await", 0) + 1
             i += 2; continue
         if t.s == "Box" and i + 3 < n and toks[i + 1].s == "::" and toks[i + 2].s == "into_pin" and toks[i + 3].s == "(":
